@@ -298,7 +298,7 @@ func init() {
 	registerWorldProp(&WorldProp{
 		ID: "C18", Name: "C18",
 		Config:     determinismConfig,
-		Gen:        GenOpts{Weights: w, HostilePct: 4, ExtremePct: 0, Anchor: true, Tempos: []int{4, 15, 40}, CapBits: 40, ClampBits: 56},
+		Gen:        GenOpts{Weights: w, HostilePct: 4, ExtremePct: 0, Anchor: true, Tempos: []int{4, 15, 40}, CapBits: 40, ClampBits: 40},
 		MinSteps:   20,
 		MaxSteps:   90,
 		Invariants: func() []Invariant { return nil },
